@@ -51,7 +51,8 @@ type setSnap struct {
 	Nil      bool
 	Vals     []valSnap
 	Proposer common.Address
-	Total    int64 // own sum of the powers
+	Total    int64       // own sum of the powers
+	RecKey   common.Hash // ValidatorSet.Hash() at snapshot time: where the store keeps the record (used only to file prune findings)
 }
 
 // fp is the membership fingerprint (members, powers, order) - priorities and proposer excluded.
@@ -105,6 +106,7 @@ func snapSet(vs *types.ValidatorSet) setSnap {
 	if vs.Proposer != nil {
 		s.Proposer = vs.Proposer.Address
 	}
+	s.RecKey = vs.Hash()
 	return s
 }
 
@@ -212,9 +214,9 @@ func (c *cmpCtx) state(got *cstate.LatestBlockState, want *stateSnap) {
 	if c.head && got.LastHeightValidatorsChanged != want.LHVC {
 		c.fail("load.lastheightvalidatorschanged-differs", "LastHeightValidatorsChanged %d, saved %d", got.LastHeightValidatorsChanged, want.LHVC)
 	}
-	c.set("lastvalidators", got.LastValidators, want.Last)
-	c.set("validators", got.Validators, want.Cur)
-	c.set("nextvalidators", got.NextValidators, want.Next)
+	c.set("load.lastvalidators", "LastValidators", got.LastValidators, want.Last)
+	c.set("load.validators", "Validators", got.Validators, want.Cur)
+	c.set("load.nextvalidators", "NextValidators", got.NextValidators, want.Next)
 }
 
 // members compares members, powers, order and the total; it reports under prefix+"-membership-differs" /
@@ -233,8 +235,10 @@ func (c *cmpCtx) members(prefix string, got *types.ValidatorSet, want setSnap) b
 	return true
 }
 
-func (c *cmpCtx) set(which string, got *types.ValidatorSet, want setSnap) {
-	if !c.members("load."+which, got, want) || want.Nil {
+// set compares one validator set completely; keys are prefix + "-membership-differs" / "-totalpower-differs" /
+// "-priorities-differ" / "-proposer-differs", except for the one listed deviation D4.
+func (c *cmpCtx) set(prefix, which string, got *types.ValidatorSet, want setSnap) {
+	if !c.members(prefix, got, want) || want.Nil {
 		return
 	}
 	g := snapSet(got)
@@ -247,8 +251,8 @@ func (c *cmpCtx) set(which string, got *types.ValidatorSet, want setSnap) {
 		return
 	}
 	if !g.samePriorities(want) {
-		c.fail("load."+which+"-priorities-differ", "priorities %s, saved %s", g, want)
+		c.fail(prefix+"-priorities-differ", "%s priorities %s, saved %s", which, g, want)
 		return
 	}
-	c.fail("load."+which+"-proposer-differs", "proposer %x, saved %x", g.Proposer, want.Proposer)
+	c.fail(prefix+"-proposer-differs", "%s proposer %x, saved %x", which, g.Proposer, want.Proposer)
 }
